@@ -169,7 +169,10 @@ impl Game {
 
         match maybe_chess_move {
             Some(result) => Ok(result.clone()),
-            None => return Err(GameError::InvalidMove),
+            // The book is keyed by from/to squares of the game's history only, so its
+            // suggestion need not be playable on this board (e.g. a game started from a
+            // supplied position): fall back to searching.
+            None => self.select_alpha_beta_best_move(),
         }
     }
 
